@@ -58,6 +58,30 @@ pub open spec fn rd(f: Seq<u8>, p: int, acc: Option<Seq<u8>>) -> RdOutcome
     }
 }
 
+/// One `read_record` call that starts at `p` (open chain `acc`) passes over a complete fragment
+/// that fails its integrity check (F12: a manifest reader must not shrug this off).
+pub open spec fn rd_damaged(f: Seq<u8>, p: int, acc: Option<Seq<u8>>) -> bool
+    decreases f.len() - p
+{
+    let h = hdr_pos(p);
+    if p < 0 || !phys_complete(f, h) {
+        false
+    } else {
+        let q = h + HEADER_LENGTH_BYTES + phys_len(f, h);
+        let pl = phys_payload(f, h);
+        if !phys_valid(f, h) {
+            true
+        } else {
+            match bt_of_code(f[h + 6]) {
+                BlockType::Full => false,
+                BlockType::First => rd_damaged(f, q, Some(pl)),
+                BlockType::Middle => rd_damaged(f, q, if acc is Some { Some(acc.unwrap() + pl) } else { None }),
+                BlockType::Last => if acc is Some { false } else { rd_damaged(f, q, None) },
+            }
+        }
+    }
+}
+
 /// Header position at which a scan from `p` finds no further complete fragment.  If it is before
 /// the end of the file, the file ends in the middle of a fragment (a torn write).
 pub open spec fn rd_end(f: Seq<u8>, p: int) -> int
